@@ -156,9 +156,9 @@ func ext4PrefixScenarios(cfg fatCfg, oracle string, depth int) []*fatScen {
 	long := func(i int) string { return fmt.Sprintf("frag/%02d-%s", i, strings.Repeat("n", 190)) }
 	var pf []fsOp
 	pf = append(pf, fsOp{Kind: "mkdir", Path: "frag"})
-	nfrag := 15
+	nfrag := 19
 	if cfg.E4SectorsPerBlock >= 8 {
-		nfrag = 75
+		nfrag = 76
 	}
 	for i := 0; i < nfrag; i++ {
 		pf = append(pf, W(long(i), "0", "c"))
